@@ -180,6 +180,10 @@ func init() {
 		return nil
 	})
 	reg(rt+"AllowDeadlock", func(fr *frame, args []Value) Value { fr.e.allowDeadlock = true; return nil })
+	reg(rt+"SpinLimit", func(fr *frame, args []Value) Value {
+		fr.e.spinLimit = int(fr.e.concretize(args[0].(*Term), "spin limit"))
+		return nil
+	})
 	reg(rt+"AllowPanic", func(fr *frame, args []Value) Value { fr.e.allowPanic = true; return nil })
 
 	// ---- sync.Mutex (field 0 = state) ----
